@@ -295,8 +295,6 @@ def run(chk, repo, tier):
                                            ast.Continue)), LIB, lp,
            key='includes-complete', what='the include loop has no early '
                                          'exit')
-    from . import c12 as _c12
-    _c12.yaml_machinery(chk, repo, 'R13.8')
     # ---- R13.9 the library container ---------------------------------------------
     from .. import reviewed
     from ..effects import FuncEffects
